@@ -122,8 +122,9 @@ def gen_item(seed, tier):
     special = ['UGlomKwOnly', 'UGlomArity', 'UserRewrite', 'UserKwOnly', 'UserArity', 'UGlomErr',
                'UGlomErrInit', 'UGlomMixed', 'UGlomRewrite', 'KeyboardInterrupt', 'UserBase', 'UserKeyErr']
     classes = rng.sample(pool, 2) + [rng.choice(special)]
-    return {'target': tgt, 'spec': spec, 'classes': classes,
-            'knobs': simrun.draw_knobs(rng)}
+    knobs = simrun.draw_knobs(rng)
+    knobs['glom_debug_env'] = rng.random() < 0.08      # GLOM_DEBUG=1 in the environment at import time
+    return {'target': tgt, 'spec': spec, 'classes': classes, 'knobs': knobs}
 
 
 # ------------------------------------------------------------------------------------------ runs
@@ -137,9 +138,13 @@ def _one_run(G, item, plan, mode, variant=None):
     kw = {}
     sentinel = None
     skip_classes = None
+    env_debug = bool(item['knobs'].get('glom_debug_env'))
     if mode == 'a':
-        kw['glom_debug'] = True
-    elif mode == 'c':
+        if not env_debug:       # (under GLOM_DEBUG=1 at import time, debug is the default)
+            kw['glom_debug'] = True
+    elif env_debug:
+        kw['glom_debug'] = False
+    if mode == 'c':
         if variant.get('default'):
             sentinel = {'sentinel': 'C04'}
             kw['default'] = sentinel
@@ -388,6 +393,8 @@ def run_seed(seed, tier):
     points = [(e[1], e[2]) for e in D['k'].log if e[0] == 0 and e[3] in ('call', 'get', 'set', 'del', 'iter', 'next', 'glomit')]
     stats['points_discovered'] = len(points)
     stats['items'] = 1
+    if item['knobs'].get('glom_debug_env'):
+        stats['reach.glom_debug_from_environment'] = 1
     cap = 30 if tier == 'quick' else 60
     if len(points) > cap:
         idx = sorted(rng.sample(range(len(points)), cap))
